@@ -21,6 +21,8 @@ def merge(ro, mo):
 
 
 def inspect_quietly(mo):
+    """Everything a caller may LOOK at on a message object: inspect(), dict, repr, str of the element wrappers it
+    exposes, their accessors.  Looking is not editing."""
     import contextlib, io
     try:
         with contextlib.redirect_stdout(io.StringIO()), warnings.catch_warnings():
@@ -28,6 +30,25 @@ def inspect_quietly(mo):
             mo.inspect()
     except Exception:  # noqa: BLE001 - what inspect() prints or raises is C20's
         pass
+    for read in (lambda: mo.dict, lambda: repr(mo), lambda: mo.message_id, lambda: mo.ro_id, lambda: mo.completed):
+        try:
+            read()
+        except Exception:  # noqa: BLE001
+            pass
+    for name in ('story', 'stories', 'source_stories', 'target_story', 'source_story', 'item', 'items'):
+        try:
+            v = getattr(mo, name)
+        except Exception:  # noqa: BLE001
+            continue
+        for w in (v if isinstance(v, list) else [v]):
+            if w is None:
+                continue
+            for read in (lambda: str(w), lambda: repr(w), lambda: w.id, lambda: w.slug, lambda: [str(i) for i in w.items], lambda: w.body,
+                         lambda: w.script, lambda: w.duration, lambda: w.note):
+                try:
+                    read()
+                except Exception:  # noqa: BLE001
+                    pass
 
 
 def monitor_history(oc, hseed, tier):
@@ -166,6 +187,14 @@ CARRY = {'StorySend', 'StoryAppend', 'StoryInsert', 'StoryReplace', 'ItemInsert'
 CARRY_BIAS = sorted(CARRY - {'RunningOrderEnd'}) + ['ItemDelete', 'ItemInsert', 'ItemReplace', 'EAItemDelete', 'MetaDataReplace']
 
 
+def _with_tails(t):
+    t = list(t)
+    t[4] = [list(c) for c in t[4]]
+    for k, c in enumerate(t[4]):
+        c[3] = f' note {k} between the elements '
+    return t
+
+
 def targeted(oc):
     """Three-step histories per carrying class: merge X; edit inside the carried story; inspect and re-use X."""
     from . import impl
@@ -186,6 +215,9 @@ def targeted(oc):
         'EAItemInsert': B.ea('INSERT', {'storyID': 'A', 'itemID': 'I1'}, [[B.item('X1')]]),
         'EAItemReplace': B.ea('REPLACE', {'storyID': 'A', 'itemID': 'I1'}, [[B.item('X1')]]),
         'MetaDataReplace': B.metadata_replace([E('roSlug', text='new'), B.timing_md(duration='5', schema='s1')]),
+        'StoryAppend-namespaced-payload': B.story_append([B.story('X', [B.item('X1', extra=[E('mosExternalMetadata', E('mosPayload', E('{urn:example}Owner', text='o', attrs={'{urn:example}k': 'v'})))]),
+                                                                        B.item('X2')])]),
+        'StoryInsert-mixed-content': B.story_insert('A', [_with_tails(B.story('X', [B.item('X1'), B.p('text'), B.item('X2')]))]),
     }
     sid = lambda c: 'A' if c in ('StorySend', 'ItemInsert', 'ItemReplace', 'EAItemInsert', 'EAItemReplace') else 'X'
     base_cls = lambda c: c.split('-')[0]
